@@ -73,7 +73,7 @@ func runC12(r *harness.Run) {
 		"registry limit cases: a case must succeed when an upper bound of its register demand fits, must fail when a lower bound exceeds the limit (+8 slots for the one-slot forced growth of raiseError), in between either; the set of succeeding sizes must be downward closed",
 		"the segmented stack may answer IsFull()=false at capacity as long as Push itself refuses (panics) and leaves the contents intact; part 2 checks that the refusal reaches Lua as a catchable error (such states are counted in p1_auto_isfull_false_at_capacity_states)",
 		"after a protected call only upvalues pointing at registers the call used (at or above its function slot) must be closed; whether upvalues of live enclosing locals stay open, G.CurrentThread after an error in a wrapped coroutine, the error message text and the ApiError type are not judged here (C03/C05/C06)",
-		"part 3 removes a (program, configuration) pair when a limit message ('stack overflow', 'registry overflow') is visible in the trace or result, or, on a mismatch, when a re-run with pcall/xpcall/coroutine.resume wrapped shows that a limit error was swallowed; collectgarbage is stubbed (it would run the host's GC); scripts that read/write files, the clock or spawn processes are not used",
+		"part 3 removes a (program, configuration) pair when a limit message ('stack overflow', 'registry overflow', 'too many results to unpack', 'too many arguments to resume') is visible in the trace or result, or, on a mismatch, when a re-run with pcall/xpcall/coroutine.resume wrapped shows that a limit error was swallowed; collectgarbage is stubbed (it would run the host's GC); scripts that read/write files, the clock or spawn processes are not used",
 		"no wall-clock oracle; sync.Pool reuse is not deterministic but no verdict depends on which segment the pool hands out when the property holds",
 	}
 	t0 := time.Now()
@@ -94,6 +94,7 @@ func runC12(r *harness.Run) {
 		r.NotExhaustive("deadline before part 3")
 	}
 	c12ProgramFamilies(r)
+	runPinned(r, "C12")
 	r.Extra["states"] = atomic.LoadInt64(&c.states)
 	r.Extra["transitions"] = atomic.LoadInt64(&c.transitions)
 	r.Extra["traces_validated_against_impl"] = atomic.LoadInt64(&c.validated)
